@@ -34,7 +34,7 @@ def run_property(pid: str, tier: str, repo: str | None, only_rule: str | None = 
             rep.rule_floor = {k: v for k, v in rep.rule_floor.items() if k == only_rule}
             rep.rule_text = {k: v for k, v in rep.rule_text.items() if k == only_rule}
         code = rep.finish(prog)
-        if code == 0 and tier == "thorough" and hasattr(mod, "audit") and not only_rule:
+        if code == 0 and tier == "thorough" and (hasattr(mod, "AUDIT") or hasattr(mod, "audit")) and not only_rule:
             from . import selftest
 
             code = selftest.run_audit(pid, mod, prog, rep)
